@@ -111,9 +111,9 @@ static void parentSpace(vf::Runner& R, Fam f, bool th) {
 
 // ------------------------------------------------------------------------------------------------------------------------------
 // compounds
-enum CKind { C_CONST = 0, C_SIMPLE, C_INV_GAMMA, C_INV_SIMPLE, C_MIX_GAMMA_EXPO, C_MIX_BETA_UNIF, C_MIX_GAUSS_SIMPLE, C_MIX3, NCK };
-static const char* CKNAME[NCK] = {"constant", "simple", "invariant(gamma)", "invariant(simple)", "mixture(gamma,exponential)", "mixture(beta,uniform)", "mixture(gaussian,simple)", "mixture(gamma,exponential,beta)"};
-static const char* ckClass(int k) { return k == C_CONST ? "constant" : k == C_SIMPLE ? "simple" : (k == C_INV_GAMMA || k == C_INV_SIMPLE) ? "invariant" : "mixture"; }
+enum CKind { C_CONST = 0, C_SIMPLE, C_INV_GAMMA, C_INV_SIMPLE, C_MIX_GAMMA_EXPO, C_MIX_BETA_UNIF, C_MIX_GAUSS_SIMPLE, C_MIX3, C_INV_BETA_HIGH, NCK };
+static const char* CKNAME[NCK] = {"constant", "simple", "invariant(gamma)", "invariant(simple)", "mixture(gamma,exponential)", "mixture(beta,uniform)", "mixture(gaussian,simple)", "mixture(gamma,exponential,beta)", "invariant(beta; invariant value 2 above the nested upper end)"};
+static const char* ckClass(int k) { return k == C_CONST ? "constant" : k == C_SIMPLE ? "simple" : (k == C_INV_GAMMA || k == C_INV_SIMPLE || k == C_INV_BETA_HIGH) ? "invariant" : "mixture"; }
 
 static std::unique_ptr<DiscreteDistributionInterface> simple3() {
   return std::unique_ptr<DiscreteDistributionInterface>(new SimpleDiscreteDistribution(std::vector<double>{0.5, 1, 2}, std::vector<double>{0.25, 0.25, 0.5}));
@@ -126,6 +126,7 @@ static std::unique_ptr<ADD> makeCompound(int kind, size_t k, double a, double b,
     case C_SIMPLE: return std::unique_ptr<ADD>(dynamic_cast<ADD*>(simple3().release()));
     case C_INV_GAMMA: return std::unique_ptr<ADD>(new InvariantMixedDiscreteDistribution(UP(new GammaDiscreteDistribution(k, a, b)), w, 0.));
     case C_INV_SIMPLE: return std::unique_ptr<ADD>(new InvariantMixedDiscreteDistribution(simple3(), w, 0.));
+    case C_INV_BETA_HIGH: return std::unique_ptr<ADD>(new InvariantMixedDiscreteDistribution(UP(new BetaDiscreteDistribution(k, a, b)), w, 2.));
     case C_MIX_GAMMA_EXPO: {
       std::vector<UP> v; v.push_back(UP(new GammaDiscreteDistribution(k, a, b))); v.push_back(UP(new ExponentialDiscreteDistribution(k, b)));
       return std::unique_ptr<ADD>(new MixtureOfDiscreteDistributions(v, std::vector<double>{w, 1 - w})); }
@@ -144,7 +145,7 @@ static void assignCompound(int kind, ADD& dst, const ADD& src) {
   switch (kind) {
     case C_CONST: dynamic_cast<ConstantDistribution&>(dst) = dynamic_cast<const ConstantDistribution&>(src); break;
     case C_SIMPLE: dynamic_cast<SimpleDiscreteDistribution&>(dst) = dynamic_cast<const SimpleDiscreteDistribution&>(src); break;
-    case C_INV_GAMMA: case C_INV_SIMPLE: dynamic_cast<InvariantMixedDiscreteDistribution&>(dst) = dynamic_cast<const InvariantMixedDiscreteDistribution&>(src); break;
+    case C_INV_GAMMA: case C_INV_SIMPLE: case C_INV_BETA_HIGH: dynamic_cast<InvariantMixedDiscreteDistribution&>(dst) = dynamic_cast<const InvariantMixedDiscreteDistribution&>(src); break;
     default: dynamic_cast<MixtureOfDiscreteDistributions&>(dst) = dynamic_cast<const MixtureOfDiscreteDistributions&>(src); break;
   }
 }
@@ -173,6 +174,10 @@ static void auditCompound(int kind, const ADD& d, vf::Case& c, const std::string
   }
   auditNormalisation(d, c, ctx, ckClass(kind));
   auditCumulative(d, c, ctx);
+  // the domain a compound reports is an interval that holds its class values (ends taken as closed: which end is strict is not judged)
+  { double lb = d.getLowerBound(), ub = d.getUpperBound();
+    if (!(lb <= ub)) c.fail(std::string("compound|domain-lower-end-above-upper-end|") + ckClass(kind), ctx + " -> domain [" + num(lb) + "," + num(ub) + "]");
+    else for (double v : d.getCategories()) if (!(v >= lb - d.precision() && v <= ub + d.precision())) { c.fail(std::string("compound|class-value-outside-the-reported-domain|") + ckClass(kind), ctx + " -> value " + num(v) + " domain [" + num(lb) + "," + num(ub) + "]"); break; } }
 }
 
 static void compoundSpaces(vf::Runner& R, bool th) {
@@ -221,8 +226,8 @@ static void compoundSpaces(vf::Runner& R, bool th) {
     std::vector<double> S = th ? std::vector<double>{0.1, 0.5, 1, 3, 10, 100} : std::vector<double>{0.1, 3};
     std::vector<double> W = {0.5, 0.1, 0, 1};
     int nS = (int)S.size(), nW = (int)W.size();
-    R.space(std::string("compound:nested:kind6:K8:M2:W4:S") + str(nS) + "x" + str(nS) + ":F6", (uint64_t)6 * 8 * 2 * nW * nS * nS * 6, [=](uint64_t idx, vf::Case& c) {
-      std::vector<int> dg = vf::digits(idx, {nS, nS, nW, 6, 2, 6, 8});
+    R.space(std::string("compound:nested:kind7:K8:M2:W4:S") + str(nS) + "x" + str(nS) + ":F6", (uint64_t)7 * 8 * 2 * nW * nS * nS * 6, [=](uint64_t idx, vf::Case& c) {
+      std::vector<int> dg = vf::digits(idx, {nS, nS, nW, 6, 2, 7, 8});
       double a = S[dg[0]], b = S[dg[1]], w = W[dg[2]]; int fu = dg[3]; bool med = dg[4]; int kind = C_INV_GAMMA + dg[5]; size_t k = KS[dg[6]];
       if ((kind == C_INV_SIMPLE) && (dg[0] || dg[1] || dg[6])) { c.tag("redundant(skipped)"); return; }
       std::string ctx = std::string(CKNAME[kind]) + " k=" + str(k) + " shapes=" + num(a) + "," + num(b) + " weight=" + num(w) + " median=" + str((int)med);
@@ -237,7 +242,7 @@ static void compoundSpaces(vf::Runner& R, bool th) {
       try {
         if (fu == 1) { d->setNumberOfCategories(k == 32 ? 3 : k + 1); ctx += " setNumberOfCategories(" + str(k == 32 ? 3 : k + 1) + ")"; }
         else if (fu == 2) {
-          if (kind == C_INV_GAMMA || kind == C_INV_SIMPLE) { d->setParameterValue("p", 0.25); ctx += " setParameterValue(p,0.25)"; }
+          if (kind == C_INV_GAMMA || kind == C_INV_SIMPLE || kind == C_INV_BETA_HIGH) { d->setParameterValue("p", 0.25); ctx += " setParameterValue(p,0.25)"; }
           else { d->setParameterValue("theta1", 0.25); ctx += " setParameterValue(theta1,0.25)"; }
         } else if (fu == 4 || fu == 5) {
           // a parameter notification that does not name a weight: the first (fu 4) / last (fu 5) parameter of a nested distribution
@@ -384,7 +389,7 @@ struct CompSys : vf::SysBase {
   std::vector<COp> ops;
   std::unique_ptr<ADD> A; int prov = 0;
   CompSys(int kind_, bool th_) : kind(kind_), th(th_) {
-    A = makeCompound(kind, 2, kind == C_MIX_GAUSS_SIMPLE ? 0.5 : 1, 1, kind == C_INV_GAMMA || kind == C_INV_SIMPLE ? 0.1 : 0.5);
+    A = makeCompound(kind, 2, kind == C_MIX_GAUSS_SIMPLE ? 0.5 : 1, 1, kind == C_INV_GAMMA || kind == C_INV_SIMPLE || kind == C_INV_BETA_HIGH ? 0.1 : 0.5);
     auto P = [&](const std::string& n, std::vector<double> vs) { for (double v : vs) ops.push_back({O_SETP, n, v, 0, 0}); };
     auto Rr = [&](double lo, double hi) { ops.push_back({O_RESTRICT, "", 0, lo, hi}); };
     std::vector<double> K = th ? std::vector<double>{1, 2, 3, 5, 8, 32} : std::vector<double>{1, 2, 5};
@@ -395,6 +400,7 @@ struct CompSys : vf::SysBase {
       case C_INV_SIMPLE: P("p", {0.1, 0.5, 0, 1}); P("Simple.V1", {0.5, 0.25, 1}); P("Simple.theta1", {0.25, 1}); Rr(0, 4); Rr(0, 3); break;
       case C_MIX_GAMMA_EXPO: P("theta1", {0.5, 0.1, 1, 0}); P("1_Gamma.alpha", {1, 0.5, 3}); P("2_Exponential.lambda", {1, 3}); Rr(0, 4); Rr(0.5, 2); break;
       case C_MIX_BETA_UNIF: P("theta1", {0.5, 0.1, 1, 0}); P("1_Beta.alpha", {1, 0.5, 3}); P("1_Beta.beta", {1, 3}); Rr(0.1, 0.9); Rr(0, 0.5); break;
+      case C_INV_BETA_HIGH: P("p", {0.1, 0.5, 0, 1}); P("Beta.alpha", {1, 0.5, 3}); P("Beta.beta", {1, 3}); Rr(0, 2); Rr(0.25, 2); break;
       case C_MIX3: P("theta1", {0.5, 0.1, 0}); P("theta2", {0.25, 0.5, 1}); P("1_Gamma.alpha", {1, 3}); P("2_Exponential.lambda", {1, 3}); P("3_Beta.beta", {1, 0.5}); Rr(0, 4); Rr(0.25, 0.75); break;
       default: P("theta1", {0.5, 0.1, 1, 0}); P("1_Gaussian.mu", {0.5, 0, 1}); P("1_Gaussian.sigma", {1, 3}); P("2_Simple.V1", {0.5, 0.25}); Rr(-1, 4); Rr(0.25, 3); break;
     }
